@@ -1229,7 +1229,11 @@ class MultiReader(IndexReader):
         return sum(dr.field_length(fieldname) for dr in self.readers)
 
     def min_field_length(self, fieldname):
-        return min(r.min_field_length(fieldname) for r in self.readers)
+        # A sub-reader without any document (e.g. the segment of a
+        # multiprocessing sub-writer that received nothing) has no minimum
+        lens = [r.min_field_length(fieldname) for r in self.readers
+                if r.doc_count_all()]
+        return min(lens) if lens else 0
 
     def max_field_length(self, fieldname):
         return max(r.max_field_length(fieldname) for r in self.readers)
